@@ -725,7 +725,13 @@ def chunk_loop_defects(func_node: ast.AST) -> list[tuple[ast.AST, str, str]]:
         step = ast.unparse(st)
         if not (isinstance(a, ast.Constant) and a.value == 0):
             out.append((lp, seq, f"the chunks start at {ast.unparse(a)}, not at 0"))
-        if ast.unparse(b) != f"len({seq})":
+        b_txt = ast.unparse(b)
+        if isinstance(b, ast.Name):
+            # `n = len(X)` bound once before the loop is the same bound
+            dv = [n_.value for n_ in walk_no_nested(func_node) if isinstance(n_, ast.Assign) and any(isinstance(t, ast.Name) and t.id == b.id for t in n_.targets)]
+            if len(dv) == 1:
+                b_txt = ast.unparse(dv[0])
+        if b_txt != f"len({seq})":
             out.append((lp, seq, f"the chunk starts run up to `{ast.unparse(b)}`, not to len({seq}): the elements of the last chunk(s) are never visited when the length is not a multiple that hides it"))
         for sl in slices:
             up = sl.slice.upper
